@@ -67,7 +67,7 @@ Section Hist.
     Forall (fun v => 0 <= v < dom) vals /\ c' = mkCoin (merge_with_int (seed c) nonce) n.
   Proof.
     intros Hn H. rewrite (draw_integers_spec D merge_with_int dbytes) in H by lia. cbv zeta in H.
-    destruct (is_pow2 dom) eqn:Ep; cbn [negb orb] in H; [|discriminate].
+    destruct (is_pow2 dom) eqn:Ep; cbn [negb] in H; [|discriminate].
     destruct (dom <=? n) eqn:El; [discriminate|]. apply Z.leb_gt in El.
     replace (n =? 0) with false in H by (symmetry; apply Z.eqb_neq; lia).
     destruct (n <=? 1000) eqn:E1; [|discriminate]. apply Z.leb_le in E1.
